@@ -242,6 +242,23 @@ def main(argv=None):
             row['status'] = 'twin-reached' if state in ('POST_FAIL',) else 'twin-NOT-reached(%s)' % state
             rows.append(row)
             continue
+        if ob.get('expect') == 'refute':
+            # reachability witness: the success path of a harness must be reachable, i.e. this condition must be refuted
+            if state == 'POST_FAIL':
+                msg = [m for m in r['messages'] if m['state'] == state][-1]
+                rep, tail = (replay_native(ob, msg.get('call')) if msg.get('call') else (None, ''))
+                n_replays += 1
+                if rep and rep.get('reproduces'):
+                    row['status'] = 'decided'
+                    row['witness'] = msg.get('call')
+                else:
+                    row['status'] = 'inconclusive'
+                    row['why'] = 'witness does not replay natively'
+            else:
+                row['status'] = 'inconclusive'
+                row['why'] = 'reachability witness not refuted (%s): the harnesses it guards may be vacuous' % state
+            rows.append(row)
+            continue
         if state == 'CONFIRMED':
             row['status'] = 'decided'
         elif state in ('POST_FAIL', 'EXEC_ERR'):
